@@ -4,6 +4,8 @@
   run_patch.py --diff FILE [C01 C02 ...]        apply with `git apply`
   run_patch.py --mutant ID [C01 ...]            apply a string-replacement mutant from selftest/mutants.py
   run_patch.py --all-mutants | --all-benign     run the whole catalogue, print a table, exit 1 on a miss / false alarm
+  run_patch.py --all-seeded [ids]               every seeded/<id>/patch.diff must be caught by the check of its own property
+  run_patch.py --all-benign-diffs [files]       every benign_diffs/*.diff must leave all 19 checks silent
 
 The scratch copy lives under $TMPDIR (default /tmp) and is removed afterwards together with its facts."""
 import json
@@ -99,6 +101,34 @@ def main():
                 print('%-28s %s  %s' % (m['id'], 'SILENT' if not alarms else 'FALSE-ALARM', alarms if alarms else ''))
                 if alarms:
                     bad += 1
+        return 1 if bad else 0
+    if args and args[0] in ('--all-seeded', '--all-benign-diffs'):
+        # seeded/<id>/patch.diff must be caught by the check of its own property; benign_diffs/*.diff must leave all 19 silent
+        seeded = args[0] == '--all-seeded'
+        root = os.path.join(VERIF, 'seeded' if seeded else 'benign_diffs')
+        only = args[1:] or None
+        bad = 0
+        items = sorted(os.listdir(root))
+        for it in items:
+            f = os.path.join(root, it, 'patch.diff') if seeded else os.path.join(root, it)
+            if not os.path.isfile(f) or not f.endswith('.diff'):
+                continue
+            if only and it not in only and it[:3] not in only:
+                continue
+            d = make_scratch()
+            try:
+                subprocess.check_call(['git', 'apply', '--unsafe-paths', '--directory', d, f], cwd='/')
+                res = run_checks(d, [it[:3]] if seeded else ALL)
+            finally:
+                cleanup(d)
+            if seeded:
+                code, keys = res[it[:3]]
+                print('%-10s %-4s %s  %s' % (it, it[:3], 'CAUGHT' if code == 1 else 'MISSED', keys[:2]))
+                bad += code != 1
+            else:
+                alarms = {p_: k for p_, (c, k) in res.items() if c != 0}
+                print('%-28s %s  %s' % (it, 'SILENT' if not alarms else 'FALSE-ALARM', alarms if alarms else ''))
+                bad += bool(alarms)
         return 1 if bad else 0
     if args and args[0] == '--mutant':
         m = [x for x in M.MUTANTS + M.BENIGN if x['id'] == args[1]][0]
